@@ -181,7 +181,8 @@ def decrypt_message(blob, recipient=None, passphrase=None):
     raise ValueError('integrity check failed for every candidate session key')
 
 
-def encrypt_message(inner, alg, recipients=(), passphrases=(), sk=None, s2k=(3, 8, 96), fmt='new', partial=False, esk_plain_session=False):
+def encrypt_message(inner, alg, recipients=(), passphrases=(), sk=None, s2k=(3, 8, 96), fmt='new', partial=False, esk_plain_session=False,
+                    zero_lead_shared=False, pad40=False):
     """Independent encryption. recipients: list of dicts describing public keys:
        {'kind': 'rsa', 'keyid': b8, 'n': int, 'e': int} or {'kind': 'ecdh', 'keyid', 'oid', 'curve': name|'cv25519', 'point': bytes, 'kdf': (h, k), 'fpr': b20}.
     Returns (blob, log)."""
@@ -197,20 +198,23 @@ def encrypt_message(inner, alg, recipients=(), passphrases=(), sk=None, s2k=(3, 
             body = b'\x03' + r['keyid'] + b'\x01' + build.mpi(int.from_bytes(c, 'big'))
             log['esk'].append({'kind': 'rsa', 'wire': list(body), 'm': list(block)})
         else:
-            pad = 8 - len(block) % 8
+            pad = (40 - len(block)) if (pad40 and len(block) < 40) else (8 - len(block) % 8)
             padded = block + bytes([pad]) * pad
-            if r['curve'] == 'cv25519':
-                eph = x25519.X25519PrivateKey.generate()
-                shared = eph.exchange(x25519.X25519PublicKey.from_public_bytes(r['point'][1:]))
-                vb = b'\x40' + eph.public_key().public_bytes(serialization.Encoding.Raw, serialization.PublicFormat.Raw)
-            else:
-                curve = build.CURVE[r['curve']]()
-                sz = (curve.key_size + 7) // 8
-                eph = ec.generate_private_key(curve)
-                pubn = ec.EllipticCurvePublicNumbers(int.from_bytes(r['point'][1:1 + sz], 'big'), int.from_bytes(r['point'][1 + sz:], 'big'), curve)
-                shared = eph.exchange(ec.ECDH(), pubn.public_key())
-                en = eph.public_key().public_numbers()
-                vb = b'\x04' + en.x.to_bytes(sz, 'big') + en.y.to_bytes(sz, 'big')
+            for _try in range(20000):
+                if r['curve'] == 'cv25519':
+                    eph = x25519.X25519PrivateKey.generate()
+                    shared = eph.exchange(x25519.X25519PublicKey.from_public_bytes(r['point'][1:]))
+                    vb = b'\x40' + eph.public_key().public_bytes(serialization.Encoding.Raw, serialization.PublicFormat.Raw)
+                else:
+                    curve = build.CURVE[r['curve']]()
+                    sz = (curve.key_size + 7) // 8
+                    eph = ec.generate_private_key(curve)
+                    pubn = ec.EllipticCurvePublicNumbers(int.from_bytes(r['point'][1:1 + sz], 'big'), int.from_bytes(r['point'][1 + sz:], 'big'), curve)
+                    shared = eph.exchange(ec.ECDH(), pubn.public_key())
+                    en = eph.public_key().public_numbers()
+                    vb = b'\x04' + en.x.to_bytes(sz, 'big') + en.y.to_bytes(sz, 'big')
+                if not zero_lead_shared or shared[0] == 0:
+                    break                      # (optionally) an ephemeral key whose shared secret starts with a zero octet
             param = bytes([len(r['oid'])]) + r['oid'] + bytes([18, 3, 1, r['kdf'][0], r['kdf'][1]]) + b'Anonymous Sender    ' + r['fpr']
             kin = b'\x00\x00\x00\x01' + shared + param
             z = hashlib.new(HASHN[r['kdf'][0]], kin).digest()[:SYM[r['kdf'][1]][2]]
